@@ -120,19 +120,14 @@ def run_property(prop, tier, seed):
             cov["campaigns"].append(c["summary"])
             states += c["summary"].get("gen_states", 0) + c["judge"]["states"]
             transitions += c["summary"].get("gen_transitions", 0) + c["judge"]["transitions"]
-            traces_total += len(c["traces"])
             clause_counter.update(c["judge"]["clauses"])
             clause_evals += c["judge"]["cnt"]
-            for t in c["traces"]:
-                events_total += len(t["events"])
-                pal_counter["+".join(t["pal"]) if isinstance(t.get("pal"), list) else str(t.get("pal"))] += 1
-                for ev in t["events"]:
-                    calls_counter[ev.get("call", ev.get("act", "?"))] += 1
-                    for tb in ev.get("pre", {}).values():
-                        rp = tb.get("rep") if isinstance(tb, dict) else None
-                        if rp:
-                            rep_counter["%s:%s|%s|zeros=%s" % (ev["call"], rp["fmt"], "sorted" if rp["sorted"] else "unsorted",
-                                                               "y" if rp["stored_zeros"] else "n")] += 1
+            ts = c.get("trace_stats") or F.add_trace_stats(F.new_trace_stats(), c["traces"])
+            traces_total += ts["traces"]
+            events_total += ts["events"]
+            pal_counter.update(ts["palettes"])
+            calls_counter.update(ts["calls"])
+            rep_counter.update(ts["rep"])
             if c["stimuli"] and len(samples) < 4:
                 s = c["stimuli"][(seed * 7919) % len(c["stimuli"])]
                 samples.append({"campaign": camp["name"], "palette": s.get("pal"), "init_tag": s.get("tag"),
